@@ -113,6 +113,7 @@ Proof.
   - repeat split; [assumption | apply Hnil].
   - repeat split; [assumption | apply Hnil].
   - repeat split; [assumption | apply Hnil].
+  - rewrite hijack_callers, hijack_cursor, hijack_log. repeat split; [assumption | apply Hnil].
 Qed.
 
 Lemma nth_error_ext {A} (l ext : list A) j x : nth_error l j = Some x -> nth_error (l ++ ext) j = Some x.
@@ -208,8 +209,8 @@ Proof.
       * rewrite Hcl in Es. inversion Es as [E1]. eapply Hfin; [exact E1 | reflexivity].
     + destruct (is_timeout i l) eqn:Et.
       * destruct l; cbn in Et; try discriminate. apply Nat.eqb_eq in Et. subst i0. clear Ht.
-        unfold step in Es. rewrite Hc, Hst in Es. destruct (c_kind c); try discriminate. destruct (tmo s); [|discriminate].
-        inversion Es as [E1]. eapply Hdone. rewrite <- E1. unfold st_at. cbn [callers finish]. erewrite nth_error_upd_same by eassumption. reflexivity.
+        unfold step in Es. rewrite Hc, Hst in Es. destruct (c_kind c); try discriminate; (destruct (tmo s); [|discriminate]);
+          inversion Es as [E1]; eapply Hdone; rewrite <- E1; unfold st_at; cbn [callers finish]; erewrite nth_error_upd_same by eassumption; reflexivity.
       * destruct (frame _ _ _ i c Ht Er Et Hc Hst) as (Hc1 & Hcur1 & _).
         eapply (IH s1 s' i c p); try eassumption.
         -- now rewrite Hcur1.
@@ -240,57 +241,91 @@ Proof.
     + rewrite Hp. eexists; reflexivity.
 Qed.
 
-(* ------------------------------------------------------------------ C19_timeout *)
-Definition timeout_statement (only_call_method : bool) : Prop :=
-  forall cs cap t tr s i c, reach cs cap t tr s -> tmo s = true -> nth_error (callers s) i = Some c -> c_st c = CWaiting ->
-    (only_call_method = true -> c_kind c <> KFlags) ->
-    exists s', step (LTimeout i) s = Some s' /\ st_at s' i = Some (CDone RTimedOut).
-
-Theorem timeout_partial : timeout_statement true.
+(* ------------------------------------------------------------------ C19_timeout: with a timeout configured, the timer of every
+   waiting call — Connection::call_method, Proxy::call and (since commit 3eb91a8f) Proxy::call_with_flags alike — can fire and
+   completes the call with TimedOut *)
+Theorem timeout_full cs cap t tr s i c :
+  reach cs cap t tr s -> tmo s = true -> nth_error (callers s) i = Some c -> c_st c = CWaiting ->
+  exists s', step (LTimeout i) s = Some s' /\ st_at s' i = Some (CDone RTimedOut).
 Proof.
-  intros cs cap t tr s i c Hr Ht Hc Hst Hk. specialize (Hk eq_refl).
-  pose proof (noreply_inv _ _ _ _ _ Hr i c Hc) as Hn.
-  destruct (c_kind c) eqn:Ek; [|congruence|exfalso; now apply Hn].
-  unfold step. rewrite Hc, Hst, Ek, Ht. eexists. split; [reflexivity|].
-  unfold st_at. cbn [callers finish]. erewrite nth_error_upd_same by eassumption. reflexivity.
+  intros Hr Ht Hc Hst. pose proof (noreply_inv _ _ _ _ _ Hr i c Hc) as Hn.
+  destruct (c_kind c) eqn:Ek; [| |exfalso; now apply Hn];
+    (unfold step; rewrite Hc, Hst, Ek, Ht; eexists; split; [reflexivity|];
+     unfold st_at; cbn [callers finish]; erewrite nth_error_upd_same by eassumption; reflexivity).
 Qed.
 
-(* Proxy::call_with_flags: the reply is awaited without the timeout — with a silent peer the call waits for ever *)
-Definition flags_witness : sys :=
-  {| callers := [{| c_kind := KFlags; c_serial := 1%N; c_st := CWaiting |}];
-     ch := {| log := []; rcv := [(0, 0)]; cap := 8; closed := false |};
-     reader := RIdle; socket := []; wire := [1%N]; wlock := None; tmo := true; done_log := [] |}.
-
-Lemma flags_witness_reach : reach [(KFlags, 1%N)] 8 true [LSub 0; LLock 0; LSend 0 true] flags_witness.
+(* without a configured timeout no timer exists: LTimeout is never enabled *)
+Theorem no_timeout_without_config cs cap t tr s i : reach cs cap t tr s -> t = false -> step (LTimeout i) s = None.
 Proof.
-  change [LSub 0; LLock 0; LSend 0 true] with ((([] ++ [LSub 0]) ++ [LLock 0]) ++ [LSend 0 true]).
-  eapply reach_step; [eapply reach_step; [eapply reach_step; [apply reach_init|]|]|]; reflexivity.
+  intros Hr ->. assert (Ht : tmo s = false).
+  { clear i. induction Hr as [|tr s l s' Hr IH Hs]; [reflexivity|]. apply step_tstep in Hs. destruct Hs; try exact IH. }
+  unfold step. destruct (nth_error (callers s) i) as [c|]; [|reflexivity]. destruct (c_st c); try reflexivity.
+  destruct (c_kind c); try reflexivity; now rewrite Ht.
 Qed.
 
-Lemma flags_witness_stuck l s' : step l flags_witness = Some s' -> exists it, l = LArrive it.
+(* ------------------------------------------------------------------ the reply reaches the channel — unless the application has
+   subscribed to exactly the rule under which Connection::new registered the method-return channel (LHijack) *)
+Definition is_hijack (l : label) : bool := match l with LHijack _ => true | _ => false end.
+Definition has_hijack (tr : list label) : bool := existsb is_hijack tr.
+
+Lemma has_hijack_app tr l : has_hijack (tr ++ [l]) = has_hijack tr || is_hijack l.
+Proof. unfold has_hijack. rewrite existsb_app. cbn. now rewrite orb_false_r. Qed.
+
+(* both entries are in place as long as nobody has taken one *)
+Lemma keys_inv cs cap t tr s : reach cs cap t tr s -> has_hijack tr = false -> kret s = true /\ kerr s = true.
 Proof.
-  destruct l as [i|i|i ok|i|i| | | |it]; cbn; try discriminate.
-  - destruct i as [|[|i]]; cbn; discriminate.
-  - destruct i as [|[|i]]; cbn; discriminate.
-  - destruct i as [|[|i]]; cbn; discriminate.
-  - destruct i as [|[|i]]; cbn; discriminate.
-  - destruct i as [|[|i]]; cbn; discriminate.
-  - intros _. now exists it.
+  induction 1 as [|tr s l s' Hr IH Hs]; [split; reflexivity|]. rewrite has_hijack_app. intros Hh. apply orb_false_iff in Hh. destruct Hh as [Hh Hl].
+  specialize (IH Hh). apply step_tstep in Hs. destruct Hs; try exact IH. discriminate.
 Qed.
 
-Theorem flags_call_refuted : ~ timeout_statement false.
+(* the channel is closed only when the reader has failed or both entries are gone *)
+Lemma closed_inv cs cap t tr s : reach cs cap t tr s -> closed (ch s) = true -> reader s = RStopped \/ (kret s = false /\ kerr s = false).
 Proof.
-  intros H. destruct (H _ _ _ _ _ 0 _ flags_witness_reach eq_refl eq_refl eq_refl) as (s' & Hs & _); [discriminate|].
-  cbn in Hs. discriminate.
+  induction 1 as [|tr s l s' Hr IH Hs]; [discriminate|]. apply step_tstep in Hs.
+  destruct Hs; cbn [ch reader kret kerr with_ch with_callers with_wlock with_wire with_reader with_socket finish];
+    rewrite ?closed_subscribe, ?closed_drop; try exact IH;
+    try (intros Hc; destruct (IH Hc) as [Hx|Hx]; [congruence | right; exact Hx]).
+  - apply try_recv_got in H1. destruct H1 as (p0 & _ & _ & _ & Hcl & _). rewrite Hcl. exact IH.
+  - apply try_recv_got in H1. destruct H1 as (p0 & _ & _ & _ & Hcl & _). rewrite Hcl. exact IH.
+  - apply try_recv_got in H1. destruct H1 as (p0 & _ & _ & _ & Hcl & _). rewrite Hcl. exact IH.
+  - apply try_push_pushed in H0. destruct H0 as (_ & _ & _ & Hcl & Hf). rewrite Hcl, Hf. discriminate.
+  - intros _. now left.
+  - (* hijack *) unfold hijack. cbn [ch reader kret kerr]. destruct e.
+    + cbn [orb]. rewrite orb_false_r. destruct (kret s) eqn:Ek; [|intros _; right; split; reflexivity].
+      intros Hc. destruct (IH Hc) as [Hx|[Hx _]]; congruence.
+    + cbn [orb]. destruct (kerr s) eqn:Ek; [|intros _; right; split; reflexivity].
+      intros Hc. destruct (IH Hc) as [Hx|[Hx _]]; congruence.
 Qed.
 
-Theorem flags_call_waits_for_ever : forall tr' s', exec tr' flags_witness = Some s' ->
-  (forall it, ~ In (LArrive it) tr') -> s' = flags_witness.
+Definition delivery_statement (only_without_hijack : bool) : Prop :=
+  forall cs cap0 t tr s i c m rest, reach cs cap0 t tr s -> (only_without_hijack = true -> has_hijack tr = false) ->
+    reader s = RIdle -> socket s = IMsg m :: rest ->
+    nth_error (callers s) i = Some c -> c_st c = CWaiting -> answers m (c_serial c) = true -> qlen (ch s) < cap (ch s) ->
+    exists s', exec [LRead; LPush; LNext] s = Some s' /\ log (ch s') = log (ch s) ++ [IMsg m] /\ reader s' = RIdle /\ socket s' = rest.
+
+Theorem delivery_partial : delivery_statement true.
 Proof.
-  intros [|l tr'] s' He Hn; cbn in He; [now inversion He|].
-  destruct (step l flags_witness) as [s1|] eqn:Es; [|discriminate]. destruct (flags_witness_stuck _ _ Es) as [it ->].
-  exfalso. apply (Hn it). now left.
+  intros cs cap0 t tr s i c m rest Hr Hh Hrd Hso Hc Hst Ha Hroom. destruct (keys_inv _ _ _ _ _ Hr (Hh eq_refl)) as [Hkr Hke].
+  destruct (waiting_has_cursor _ _ _ _ _ i c Hr Hc Hst) as (p & Hcur & _).
+  assert (Hncl : closed (ch s) = false).
+  { destruct (closed (ch s)) eqn:E; [|reflexivity]. destruct (closed_inv _ _ _ _ _ Hr E) as [Hx|[Hx _]]; congruence. }
+  assert (Hfan : fanout s (IMsg m) = 1).
+  { unfold answers in Ha. apply andb_true_iff in Ha. destruct Ha as [_ Hrep]. unfold fanout. destruct (m_type m); try discriminate; [now rewrite Hkr | now rewrite Hke]. }
+  cbn [exec]. unfold step at 1. rewrite Hrd, Hso, Hfan.
+  unfold step at 1. cbn [reader with_reader with_socket ch]. unfold try_push. rewrite Hncl.
+  pose proof (cursor_some_rcv (ch s) i p Hcur) as Hrcv. destruct (rcv (ch s)) as [|r0 rs] eqn:Er; [congruence|].
+  assert (Hfull : (cap (ch s) <=? qlen (ch s)) = false) by (apply Nat.leb_gt; exact Hroom). rewrite Hfull.
+  unfold step at 1. cbn [reader with_reader with_ch]. eexists. split; [reflexivity|]. cbn. repeat split; reflexivity.
 Qed.
+
+(* the witness: one call written, the application subscribes to type='method_return', the reply arrives *)
+Definition hijack_cs : list (ckind * N) := [(KCall, 1%N)].
+Definition hijack_reply : msg := {| m_id := 0; m_type := TReturn; m_rs := Some 1%N |}.
+Definition hijack_trace : list label := [LSub 0; LLock 0; LSend 0 true; LHijack false; LArrive (IMsg hijack_reply)].
+Definition hijack_witness : sys := match exec hijack_trace (init hijack_cs 8 false) with Some s => s | None => init hijack_cs 8 false end.
+
+Lemma hijack_witness_exec : exec hijack_trace (init hijack_cs 8 false) = Some hijack_witness.
+Proof. vm_compute. reflexivity. Qed.
 
 (* ------------------------------------------------------------------ the replay of the correspondence check stays inside the relation *)
 Lemma exec_reach_gen cs cap t : forall tr tr0 s0 s, reach cs cap t tr0 s0 -> exec tr s0 = Some s -> reach cs cap t (tr0 ++ tr) s.
